@@ -6,6 +6,7 @@ func init() {
 		Technique:   "map-order taint with sort sanitisation on the stream key, injectivity rule on its write sequence, provenance pairing of stream key and labels, finite-case table of the limit guard, dominance of the per-stream sort",
 		Explanation: "Decides the structural clauses behind 'streams are a partition, ordered, and honour the limit' for all inputs: the stream key is an order-independent, injective encoding of exactly the entry's label set; every entry is appended to the stream of its key and stored back; stream labels never alias reused state; every stream is sorted by timestamp before any successful return; the limit guard's truth table and the once-per-entry counter.",
 		Decided: []string{
+			"PV-ORDER: the label set is cleared per record; PV-FRESH: AsMap stores every label under its own name; PV-API: Value.Str only for string-typed values",
 			"FE-ORD: once the entry counter is incremented every path returns true without another iteration (the limit counts emitted entries)",
 			"MO/PV-INJKEY: LabelSet.String sorts maps.Keys before writing, writes every label, quotes values",
 			"PV-PAIR/PV-ONCE/PV-ROLE: groupEntries keys by e.set.String(), labels from the same e.set on the miss edge, LogEntry{T: e.ts, V: e.line} appended and the stream stored back on every iteration",
